@@ -1,7 +1,7 @@
 (* Properties/C16_instance.v -- the start wrapper with the channel capacity that `nxh start-extract`
    reads from /repo's run.go on every run (Gen/StartParams.v).  Compiled by bin/check C16, not part
    of the static project. *)
-From NX Require Import Bytes Start StartFacts StartParams.
+From NX Require Import Bytes Start StartFacts Slots SlotsFacts StartParams.
 
 (* the code as it is now: the listener's error is handed over with a non-blocking send (every send
    on the channel in start is a case of a select with a default -- what Start.v's step models) ... *)
@@ -15,3 +15,14 @@ Proof.
   assert (H : start_cap1 = true) by (vm_compute; reflexivity). rewrite H. exact start_reports_failure.
 Qed.
 Print Assumptions C16_start_instance.
+
+(* the UDP read loop obtains its request slot the way the source says now (udp_slot_select): once the socket
+   is closed it ends by steps of its own, whatever the handlers that hold the slots do (F25) *)
+Theorem C16_stop_instance : forall k ls s,
+  sruns udp_slot_select k (sinit0 k) ls = Some s -> s_closed s = true ->
+  exists own, (own = [] \/ own = [SNotice] \/ own = [SAcquire; SNotice]) /\
+    exists s', sruns udp_slot_select k s own = Some s' /\ s_loop s' = LStopped.
+Proof.
+  assert (H : udp_slot_select = true) by (vm_compute; reflexivity). rewrite H. exact stop_does_not_wait.
+Qed.
+Print Assumptions C16_stop_instance.
